@@ -227,7 +227,7 @@ func hdr(maj byte, n uint64) []byte {
 
 func TestCheck(t *testing.T) {
 	r := vp.New("C10", "exploration",
-		"messages: {CIDv0, CIDv1 x 3 codecs x 3 hash functions} x {every list of 0..3 addresses over a 5-symbol alphabet incl. unknown-protocol, empty and 300-byte strings} x {extra data nil/empty/1/24/256 bytes} x {orig peer absent/present}, CBOR and JSON round trips; HTTP sender (CBOR and JSON) and pubsub sender for every address list of <=3 over {3 valid, 1 unknown-protocol}, the HTTP sender also with extra data whose only, first or last byte is each of the 256 byte values (lists of <=1 address); CBOR decoder: for each corpus encoding every single-byte substitution, every truncation, every CBOR header token at every offset (replacing 0 or 1 byte) singly and a reduced token set in adjacent pairs, lengths at and just above each cap, all byte strings of length <=2. Non-trivial: messages with at least one address or extra data; decoder inputs other than the corpus.",
+		"messages: {CIDv0, CIDv1 x 3 codecs x 3 hash functions} x {every list of 0..3 addresses over a 5-symbol alphabet incl. unknown-protocol, empty and 300-byte strings} x {extra data nil/empty/1/24/256 bytes} x {orig peer absent/present}, CBOR and JSON round trips; HTTP sender (CBOR and JSON) and pubsub sender for every address list of <=3 over {3 valid, 1 unknown-protocol}, the HTTP sender also with extra data whose only, first or last byte is each of the 256 byte values (lists of <=1 address), with an original-peer field and with extra data carried by the message instead of the sender option; CBOR decoder: for each corpus encoding every single-byte substitution, every truncation, every CBOR header token at every offset (replacing 0 or 1 byte) singly and a reduced token set in adjacent pairs, lengths at and just above each cap, all byte strings of length <=2. Non-trivial: messages with at least one address or extra data; decoder inputs other than the corpus.",
 		"equality treats nil and empty byte fields alike",
 		"allocation bound: input length + 2 x ByteArrayMaxLen + 256 KiB",
 		"decoder inputs run in a worker subprocess with a 6 GiB address-space limit",
@@ -591,17 +591,38 @@ func checkSenders(r *vp.Recorder) {
 					extras = append(extras, []byte{byte(b)}, []byte{'x', 'd', byte(b)}, []byte{byte(b), 'x', 'd'})
 				}
 			}
+			// the message's own fields besides the addresses: an original-peer
+			// field (a relayed announcement) and extra data carried by the
+			// message itself instead of the sender's option
+			origPeer := fixture.Key("ed25519", 9).ID.String()
+			type variant struct {
+				extra    []byte
+				orig     string
+				ownExtra bool
+			}
+			var variants []variant
 			for _, extra := range extras {
+				variants = append(variants, variant{extra: extra})
+			}
+			variants = append(variants, variant{orig: origPeer}, variant{extra: []byte("extra-data"), orig: origPeer}, variant{extra: []byte("own-extra"), ownExtra: true}, variant{extra: []byte("own-extra"), ownExtra: true, orig: origPeer})
+			for _, v := range variants {
+				extra := v.extra
 				key := fmt.Sprintf("httpsend|%s|%v|extra=%d", mode, l, len(extra))
 				if len(extra) > 0 && len(extra) <= 3 {
 					key = fmt.Sprintf("httpsend|%s|%v|extra=x%x", mode, l, extra)
+				}
+				if v.orig != "" {
+					key += "|orig-peer"
+				}
+				if v.ownExtra {
+					key += "|extra-in-message"
 				}
 				if !r.Mine(key) {
 					continue
 				}
 				r.Eval(key, len(l) > 0)
 				opts := []httpsender.Option{httpsender.WithClient(n.Client())}
-				if extra != nil {
+				if extra != nil && !v.ownExtra {
 					opts = append(opts, httpsender.WithExtraData(extra))
 				}
 				s, err := httpsender.New([]*url.URL{u}, pub.ID, opts...)
@@ -609,7 +630,10 @@ func checkSenders(r *vp.Recorder) {
 					r.Violation("httpsender:new-error", key, err.Error(), nil)
 					continue
 				}
-				msg := message.Message{Cid: c}
+				msg := message.Message{Cid: c, OrigPeer: v.orig}
+				if v.ownExtra {
+					msg.ExtraData = extra
+				}
 				var want []string
 				for _, i := range l {
 					if i < nValid {
@@ -675,8 +699,8 @@ func checkSenders(r *vp.Recorder) {
 				if len(ais) > 1 || (len(want) > 0 && len(ais) != 1) {
 					okID = false
 				}
-				if !got.Cid.Equals(c) || !okID || strings.Join(gl, " ") != strings.Join(want, " ") || !bytes.Equal(got.ExtraData, extra) || got.OrigPeer != "" {
-					r.Violation("httpsender:wire-differs:"+mode, key, fmt.Sprintf("receiver decoded cid=%s publisher-ok=%v addrs=%v extra=%q orig=%q; want cid=%s addrs=%v extra=%q", got.Cid, okID, gl, got.ExtraData, got.OrigPeer, c, want, extra), nil)
+				if !got.Cid.Equals(c) || !okID || strings.Join(gl, " ") != strings.Join(want, " ") || !bytes.Equal(got.ExtraData, extra) || got.OrigPeer != v.orig {
+					r.Violation("httpsender:wire-differs:"+mode, key, fmt.Sprintf("receiver decoded cid=%s publisher-ok=%v addrs=%v extra=%q orig=%q; want cid=%s addrs=%v extra=%q orig=%q", got.Cid, okID, gl, got.ExtraData, got.OrigPeer, c, want, extra, v.orig), nil)
 					continue
 				}
 				r.Outcome("httpsend-ok")
